@@ -7,7 +7,7 @@ CONSTANTS
   Pool <- Pool3
   PoolVal <- PoolVal3
   Maturity = 3
-  Flags = {"badRoot", "badSums", "badPrevRoot", "badSize", "badKernelRoot", "badTime", "badRproofRoot", "badKernelSize"}
+  Flags = {"badRoot", "badSums", "badPrevRoot", "badSize", "badKernelRoot", "badTime"}
   MaxDeliveries = 3
   HeadersFirst = FALSE
   SimProfile = "mixed"
